@@ -11,7 +11,7 @@ package eval
 //@ func contains C04 C05 C20
 //@   ensures [member] (= $ret0 (exists ((k Int)) (and (<= 0 k) (< k (len $params)) (= (idx $params k) $target))))
 //@   loop 1 (rangeindex)
-//@     invariant [range] (and (<= -1 $rangeindex) (< $rangeindex (ite (= (len $params) 0) 1 (len $params))))
+//@     invariant [range] (and (<= -1 $rangeindex) (< $rangeindex (len $params)))
 //@     invariant [none-before] (forall ((k Int)) (=> (and (<= 0 k) (<= k $rangeindex)) (not (= (idx $params k) $target))))
 //@     decreases (- (len $params) $rangeindex)
 
@@ -125,3 +125,93 @@ package eval
 //@   ; on two operands the value clauses of ne and eq are negations of each other
 //@   (declare-const a (Array Int Val)) (declare-const o Int)
 //@   (assert (not (= (not (= (select a o) (select a (+ o 1)))) (not (allEqFirst a o 2)))))
+
+// ---------------------------------------------------------------------------
+// C17 — in / overlap.  memberOf and overlaps are stated over the backing arrays
+// (absolute index ranges), the same vocabulary for both element types (int64
+// values and string identities are both Int in the model).
+
+//@ ghost (define-fun memberOf ((x Int) (a (Array Int Int)) (o Int) (n Int)) Bool
+//@   (exists ((j Int)) (and (<= o j) (< j (+ o n)) (= (select a j) x))))
+//@ ghost (define-fun overlaps ((a (Array Int Int)) (ao Int) (an Int) (b (Array Int Int)) (bo Int) (bn Int)) Bool
+//@   (exists ((i Int) (j Int)) (and (<= ao i) (< i (+ ao an)) (<= bo j) (< j (+ bo bn)) (= (select a i) (select b j)))))
+
+//@ func listIn C17 C06
+//@   ensures [arity] (=> (not (= (len $params) 2)) (not (= $ret1 ENil)))
+//@   ensures [str-list] (=> (and (= (len $params) 2) (is.string (idx $params 0)) (is.slice_string (idx $params 1)))
+//@      (let ((s (p_slice_string (idx $params 1))))
+//@        (and (= $ret1 ENil) (= $ret0 (V_bool (memberOf (p_string (idx $params 0)) (elems string s) (s_off s) (s_len s)))))))
+//@   ensures [str-set] (=> (and (= (len $params) 2) (is.string (idx $params 0)) (is.map_string_struct (idx $params 1)))
+//@      (and (= $ret1 ENil) (= $ret0 (V_bool (setin map_string_struct (p_map_string_struct (idx $params 1)) (p_string (idx $params 0)))))))
+//@   ensures [int-list] (=> (and (= (len $params) 2) (is.int64 (idx $params 0)) (is.slice_int64 (idx $params 1)))
+//@      (let ((s (p_slice_int64 (idx $params 1))))
+//@        (and (= $ret1 ENil) (= $ret0 (V_bool (memberOf (p_int64 (idx $params 0)) (elems int64 s) (s_off s) (s_len s)))))))
+//@   ensures [int-set] (=> (and (= (len $params) 2) (is.int64 (idx $params 0)) (is.map_int64_struct (idx $params 1)))
+//@      (and (= $ret1 ENil) (= $ret0 (V_bool (setin map_int64_struct (p_map_int64_struct (idx $params 1)) (p_int64 (idx $params 0)))))))
+//@   ensures [int-emptylist] (=> (and (= (len $params) 2) (is.int64 (idx $params 0)) (is.slice_string (idx $params 1)))
+//@      (ite (= (s_len (p_slice_string (idx $params 1))) 0) (and (= $ret1 ENil) (= $ret0 (V_bool false))) (not (= $ret1 ENil))))
+//@   ensures [mismatch-is-error] (=> (and (= (len $params) 2)
+//@        (not (and (is.string (idx $params 0)) (or (is.slice_string (idx $params 1)) (is.map_string_struct (idx $params 1)))))
+//@        (not (and (is.int64 (idx $params 0)) (or (is.slice_int64 (idx $params 1)) (is.map_int64_struct (idx $params 1)) (is.slice_string (idx $params 1))))))
+//@      (not (= $ret1 ENil)))
+//@   loop 1 (rangeindex)
+//@     invariant [range] (and (<= -1 $rangeindex) (< $rangeindex (len $coll)))
+//@     invariant [none-before] (forall ((j Int)) (! (=> (and (<= (off $coll) j) (<= j (+ (off $coll) $rangeindex))) (not (= (select (arr $coll) j) (p_string (idx $params 0))))) :pattern ((select (arr $coll) j))))
+//@     decreases (- (len $coll) $rangeindex)
+//@   loop 2 (rangeindex)
+//@     invariant [range] (and (<= -1 $rangeindex) (< $rangeindex (len $coll)))
+//@     invariant [none-before] (forall ((j Int)) (! (=> (and (<= (off $coll) j) (<= j (+ (off $coll) $rangeindex))) (not (= (select (arr $coll) j) (p_int64 (idx $params 0))))) :pattern ((select (arr $coll) j))))
+//@     decreases (- (len $coll) $rangeindex)
+
+//@ func listOverlap C17 C06
+//@   ensures [arity] (=> (not (= (len $params) 2)) (not (= $ret1 ENil)))
+//@   ensures [str-str] (=> (and (= (len $params) 2) (is.slice_string (idx $params 0)) (is.slice_string (idx $params 1)))
+//@      (let ((a (p_slice_string (idx $params 0))) (b (p_slice_string (idx $params 1))))
+//@        (and (= $ret1 ENil) (= $ret0 (V_bool (overlaps (elems string a) (s_off a) (s_len a) (elems string b) (s_off b) (s_len b)))))))
+//@   ensures [int-int] (=> (and (= (len $params) 2) (is.slice_int64 (idx $params 0)) (is.slice_int64 (idx $params 1)))
+//@      (let ((a (p_slice_int64 (idx $params 0))) (b (p_slice_int64 (idx $params 1))))
+//@        (and (= $ret1 ENil) (= $ret0 (V_bool (overlaps (elems int64 a) (s_off a) (s_len a) (elems int64 b) (s_off b) (s_len b)))))))
+//@   ensures [int-emptylist] (=> (and (= (len $params) 2) (is.slice_int64 (idx $params 0)) (is.slice_string (idx $params 1)))
+//@      (ite (= (s_len (p_slice_string (idx $params 1))) 0) (and (= $ret1 ENil) (= $ret0 (V_bool false))) (not (= $ret1 ENil))))
+//@   ensures [emptylist-int] (=> (and (= (len $params) 2) (is.slice_string (idx $params 0)) (is.slice_int64 (idx $params 1)))
+//@      (ite (= (s_len (p_slice_string (idx $params 0))) 0) (and (= $ret1 ENil) (= $ret0 (V_bool false))) (not (= $ret1 ENil))))
+//@   ensures [mismatch-is-error] (=> (and (= (len $params) 2)
+//@        (not (and (is.slice_string (idx $params 0)) (or (is.slice_string (idx $params 1)) (is.slice_int64 (idx $params 1)))))
+//@        (not (and (is.slice_int64 (idx $params 0)) (or (is.slice_int64 (idx $params 1)) (is.slice_string (idx $params 1))))))
+//@      (not (= $ret1 ENil)))
+//@   loop 1 (rangeindex)
+//@     invariant [range] (and (<= -1 $rangeindex) (< $rangeindex (len $A)))
+//@     invariant [none-before] (forall ((i Int) (j Int)) (! (=> (and (<= (off $A) i) (<= i (+ (off $A) $rangeindex)) (<= (off $B) j) (< j (+ (off $B) (len $B))))
+//@          (not (= (select (arr $A) i) (select (arr $B) j)))) :pattern ((select (arr $A) i) (select (arr $B) j))))
+//@     decreases (- (len $A) $rangeindex)
+//@   loop 2 (rangeindex)
+//@     invariant [range] (and (<= -1 $rangeindex) (< $rangeindex (len $B)))
+//@     invariant [none-before] (forall ((j Int)) (! (=> (and (<= (off $B) j) (<= j (+ (off $B) $rangeindex)))
+//@          (not (= (select (arr $A) (+ (off $A) $rangeindex@1 1)) (select (arr $B) j)))) :pattern ((select (arr $B) j))))
+//@     decreases (- (len $B) $rangeindex)
+//@   loop 3 (rangeindex)
+//@     invariant [range] (and (<= -1 $rangeindex) (< $rangeindex (len $A)) (not (= $set 0)))
+//@     invariant [set-is-prefix] (forall ((x Int)) (! (= (mapin $set x) (memberOf x (arr $A) (off $A) (+ $rangeindex 1))) :pattern ((mapin $set x))))
+//@     decreases (- (len $A) $rangeindex)
+//@   loop 4 (rangeindex)
+//@     invariant [range] (and (<= -1 $rangeindex) (< $rangeindex (len $B)))
+//@     invariant [none-before] (forall ((j Int)) (! (=> (and (<= (off $B) j) (<= j (+ (off $B) $rangeindex))) (not (mapin $set (select (arr $B) j)))) :pattern ((select (arr $B) j))))
+//@     decreases (- (len $B) $rangeindex)
+//@   loop 5 (rangeindex)
+//@     invariant [range] (and (<= -1 $rangeindex) (< $rangeindex (len $A)))
+//@     invariant [none-before] (forall ((i Int) (j Int)) (! (=> (and (<= (off $A) i) (<= i (+ (off $A) $rangeindex)) (<= (off $B) j) (< j (+ (off $B) (len $B))))
+//@          (not (= (select (arr $A) i) (select (arr $B) j)))) :pattern ((select (arr $A) i) (select (arr $B) j))))
+//@     decreases (- (len $A) $rangeindex)
+//@   loop 6 (rangeindex)
+//@     invariant [range] (and (<= -1 $rangeindex) (< $rangeindex (len $B)))
+//@     invariant [none-before] (forall ((j Int)) (! (=> (and (<= (off $B) j) (<= j (+ (off $B) $rangeindex)))
+//@          (not (= (select (arr $A) (+ (off $A) $rangeindex@5 1)) (select (arr $B) j)))) :pattern ((select (arr $B) j))))
+//@     decreases (- (len $B) $rangeindex)
+//@   loop 7 (rangeindex)
+//@     invariant [range] (and (<= -1 $rangeindex) (< $rangeindex (len $A)) (not (= $set 0)))
+//@     invariant [set-is-prefix] (forall ((x Int)) (! (= (mapin $set x) (memberOf x (arr $A) (off $A) (+ $rangeindex 1))) :pattern ((mapin $set x))))
+//@     decreases (- (len $A) $rangeindex)
+//@   loop 8 (rangeindex)
+//@     invariant [range] (and (<= -1 $rangeindex) (< $rangeindex (len $B)))
+//@     invariant [none-before] (forall ((j Int)) (! (=> (and (<= (off $B) j) (<= j (+ (off $B) $rangeindex))) (not (mapin $set (select (arr $B) j)))) :pattern ((select (arr $B) j))))
+//@     decreases (- (len $B) $rangeindex)
